@@ -453,8 +453,8 @@ class C07(FrpProp):
                   "self-loops, multi-edges, fired or not); after every collection exactly the reachable objects survive and the candidate "
                   "buffer is empty. The hypothesis (contract) is measured on the real heap by the audit after every collection; the "
                   "end-of-script teardown (drop every handle, unlisten, empty transaction, collect) must leave node_count = 0 on the real "
-                  "library. Leaks through references no tracer reports are exactly what these two detectors find (known findings K5, "
-                  "K1 are classified by computable predicates; K3 has been repaired).")
+                  "library. Leaks through references no tracer reports are exactly what these two detectors find (known finding K5 is "
+                  "classified by a computable predicate; K1 and K3 have been repaired in /repo).")
 
     def extra_oracle(self, lines, out):
         a = audit_oracle(lines, out)
